@@ -200,8 +200,6 @@ type cloneRec struct {
 	ser string
 }
 
-// consume scans to the end, emitting obs/sobs lines into out and performing the runtime
-// clone check: every result is cloned when delivered and the clone is re-serialised at EOF.
 // scanAgain calls Scan twice more after it has returned false: it must keep returning false
 // (EOF, fatal I/O error, open failure alike) — otherwise a consumer loop never ends.
 func scanAgain(s scanner) int {
@@ -214,8 +212,58 @@ func scanAgain(s scanner) int {
 	return again
 }
 
+// unitsOf returns the accumulated unit metadata map of a Reader or Files (by reference, as the
+// API hands it out).
+func unitsOf(s scanner) map[benchfmt.UnitMetadataKey]*benchfmt.UnitMetadata {
+	switch s := s.(type) {
+	case *benchfmt.Reader:
+		return s.Units()
+	case *benchfmt.Files:
+		return s.Units()
+	}
+	return nil
+}
+
+// scribble overwrites everything reachable from a clone: if Clone shared anything with the
+// reader, later records (or the retained clones) show it.
+func scribble(c *benchfmt.Result) {
+	for i := range c.Name {
+		c.Name[i] = 'X'
+	}
+	for i := range c.Config {
+		for j := range c.Config[i].Value {
+			c.Config[i].Value[j] = 'X'
+		}
+		c.Config[i].Key, c.Config[i].File = "scribbled", !c.Config[i].File
+	}
+	for i := range c.Values {
+		c.Values[i] = benchfmt.Value{Value: -1, Unit: "scribbled"}
+	}
+	c.Config = append(c.Config, benchfmt.Config{Key: "extra", Value: []byte("x")})
+	c.SetConfig("scribbled", "")
+	c.SetConfig("more", "y")
+	c.Iters = -7
+}
+
+// consume scans to the end, emitting obs/sobs lines into out and performing the RUNTIME aliasing
+// checks (a pure model cannot exhibit aliasing; nothing here is a theorem):
+//   * every *Result is cloned when delivered; the clone must serialise like the original, and —
+//     after the reader has run on to the end — still like that (name, iterations, values, units,
+//     original values/units, config keys/values/File flags in slot order, position);
+//   * a second clone of every result is scribbled over at once: the reader must not notice;
+//   * *SyntaxError and *UnitMetadata records are retained WITHOUT copying (only *Result is
+//     documented as overwritten by the next Scan) and must be unchanged at the end;
+//   * the map returned by Units() after the first record is a live view: at the end it has the
+//     same entries as Units() then.
+// A *Result retained without Clone is documented to change and is not judged.
 func consume(out *strings.Builder, id int, s scanner) (n int, cloneOK string, labels map[string]bool) {
 	var clones []cloneRec
+	type kept struct {
+		rec benchfmt.Record
+		ser string
+	}
+	var retained []kept
+	var early map[benchfmt.UnitMetadataKey]*benchfmt.UnitMetadata
 	cloneOK = "ok"
 	labels = map[string]bool{}
 	for s.Scan() {
@@ -223,6 +271,9 @@ func consume(out *strings.Builder, id int, s scanner) (n int, cloneOK string, la
 		obs, sobs := serRec(rec)
 		fmt.Fprintf(out, "obs %d %s\n", id, obs)
 		fmt.Fprintf(out, "sobs %d %s\n", id, sobs)
+		if n == 0 {
+			early = unitsOf(s)
+		}
 		if res, ok := rec.(*benchfmt.Result); ok {
 			c := res.Clone()
 			co, _ := serRec(c)
@@ -230,7 +281,13 @@ func consume(out *strings.Builder, id int, s scanner) (n int, cloneOK string, la
 				cloneOK = fmt.Sprintf("BAD-at-clone-%d", n)
 			}
 			clones = append(clones, cloneRec{c, co})
+			scribble(res.Clone())
+			if again, _ := serRec(res); again != obs && cloneOK == "ok" {
+				cloneOK = fmt.Sprintf("BAD-scribble-reached-reader-%d", n)
+			}
 			labels[res.GetConfig(".file")] = true
+		} else {
+			retained = append(retained, kept{rec, obs})
 		}
 		n++
 	}
@@ -238,6 +295,14 @@ func consume(out *strings.Builder, id int, s scanner) (n int, cloneOK string, la
 		if now, _ := serRec(c.c); now != c.ser && cloneOK == "ok" {
 			cloneOK = fmt.Sprintf("BAD-at-eof-%d", i)
 		}
+	}
+	for i, k := range retained {
+		if now, _ := serRec(k.rec); now != k.ser && cloneOK == "ok" {
+			cloneOK = fmt.Sprintf("BAD-retained-record-%d", i)
+		}
+	}
+	if n > 0 && cloneOK == "ok" && serUnits(early) != serUnits(unitsOf(s)) {
+		cloneOK = "BAD-units-map-not-live"
 	}
 	return
 }
